@@ -104,8 +104,12 @@ class AlgorithmWithAnnealingMixin:
             )
             return
 
-        self._annealing_period = self.algo_parameters["annealing"]["n_iter"] // (
-            self.algo_parameters["annealing"]["n_plateau"] - 1
+        # <!> a plateau lasts at least 1 iteration
+        # (annealing `n_iter` may be smaller than `n_plateau - 1`, or even 0)
+        self._annealing_period = max(
+            1,
+            self.algo_parameters["annealing"]["n_iter"]
+            // (self.algo_parameters["annealing"]["n_plateau"] - 1),
         )
 
         self._annealing_temperature_decrement = (
@@ -138,5 +142,19 @@ class AlgorithmWithAnnealingMixin:
                     # Decrease temperature linearly
                     self.temperature -= self._annealing_temperature_decrement
                     self.temperature = max(self.temperature, 1)
+                    if (
+                        self.current_iteration // self._annealing_period
+                        >= self.algo_parameters["annealing"]["n_plateau"] - 1
+                    ):
+                        # Last plateau: exactly 1 (no float residue of the successive decrements)
+                        self.temperature = 1.0
 
                 self.temperature_inv = 1.0 / self.temperature
+
+        if self.current_iteration >= self.algo_parameters["annealing"][
+            "n_iter"
+        ] and not self.algo_parameters["annealing"].get("oscillations", False):
+            # Annealing is over (possibly before all plateaus were visited, if it was very short):
+            # all next iterations are run at temperature 1 exactly
+            self.temperature = 1.0
+            self.temperature_inv = 1.0
